@@ -65,7 +65,8 @@ class Result:
         self.viol_counts[sig] += 1
         lst = self.viol.setdefault(sig, [])
         if len(lst) < MAX_VIOL_PER_SIG:
-            lst.append({"case": case, "detail": detail})
+            from mc import prelude
+            lst.append({"case": case, "detail": detail, "prelude_turn": prelude.LAST[0]})
 
     def sample(self, x, limit=3):
         if len(self.samples) < limit:
@@ -185,7 +186,7 @@ def write_replay(prop, sig, v, modname):
     path = os.path.join(d, name)
     with open(path, "w") as f:
         json.dump({"property": prop, "module": modname, "signature": sig, "case": v["case"],
-                   "detail": v["detail"]}, f, indent=1, default=repr)
+                   "detail": v["detail"], "prelude_turn": v.get("prelude_turn")}, f, indent=1, default=repr)
     return path
 
 
@@ -345,6 +346,15 @@ def run_replay(path):
     if hasattr(mod, "worker_init"):
         mod.worker_init()
     viols = mod.replay(rec["case"])
+    if not viols and rec.get("prelude_turn") is not None and getattr(mod, "PRELUDE", True):
+        # the case was first met right after the shard's dirty-history prelude (mc/prelude.py): replay it in that state
+        from mc import prelude
+        if hasattr(mod, "worker_init"):
+            mod.worker_init()
+        prelude.dirty(rec["prelude_turn"])
+        viols = mod.replay(rec["case"])
+        if viols:
+            print("(reproduced only after the dirty-history prelude, turn %d: the failure depends on earlier failing calls)" % rec["prelude_turn"])
     if viols:
         for sig, detail in viols:
             print("REPRODUCED property=%s signature=%s\n  %s" % (rec["property"], sig, detail))
